@@ -79,6 +79,11 @@ func fnName(fn *ssa.Function) string {
 
 // Load type-checks the tree at dir and builds SSA and the call graph.
 func Load(dir string, goarch string, useCHA bool) (*World, error) {
+	return LoadDir(dir, goarch, useCHA, 22)
+}
+
+// LoadDir is Load with an explicit minimum number of library packages.
+func LoadDir(dir string, goarch string, useCHA bool, minLib int) (*World, error) {
 	env := os.Environ()
 	env = append(env, "GOFLAGS=-mod=mod", "GOPROXY=off", "GOSUMDB=off", "GOTOOLCHAIN=local", "GOWORK=off")
 	if goarch != "" {
@@ -157,8 +162,8 @@ func Load(dir string, goarch string, useCHA bool) (*World, error) {
 			nlib++
 		}
 	}
-	if nlib < 22 {
-		return nil, fmt.Errorf("only %d library packages loaded (expected >= 22)", nlib)
+	if nlib < minLib {
+		return nil, fmt.Errorf("only %d library packages loaded (expected >= %d)", nlib, minLib)
 	}
 	return w, nil
 }
